@@ -290,6 +290,12 @@ theorem sl_discrete_generated (thr : F) (hthr : 0 < thr) (raw : List F) (hne : r
   rw [this]
   rfl
 
+/-- non-vacuity: the regenerated Step 7.a / 7.b on the coefficients `[3/4, 0, 0, 1/4]` (hypotheses of
+    `sl_discrete_generated`: a non-empty solver vector with an entry above the threshold) -/
+example : Gen.sl_fit_discrete [(3 / 4 : Rat), 0, 0, 1 / 4] 4 = ([1, 0, 0, 0], [0]) := by decide +kernel
+example : Gen.sl_fit_full [(3 / 4 : Rat), 0, 0, 1 / 4] 4 = [0, 3] := by decide +kernel
+example : ¬ ∀ c ∈ [(3 / 10 : Rat), -1 / 5, 1 / 1000, 1 / 10], c < 1 / 100 := by decide +kernel
+
 /-! ### predict -/
 
 /-- the loop of `predict` that fills one row of `cv_pred`: the retained candidates' predictions, `0` elsewhere
